@@ -41,13 +41,13 @@ package proxy
 
 // A 304 renews the stored entry: its lifetime is set to now + the configured default,
 // nothing else in the record is touched, and the stored body is handed out again.
-//@ props C06 C09 C16 C15
+//@ props C06 C09 C16 C15 C02
 //@ func fetcher.handleUpstream304
 //@   nopanic
 //@   assigns cache. map_map_cache.CacheKey atomic.Int64 ghost:mapsum ghost:fsinode ghost:jsize ghost:jexp ghost:handleinode ghost:callcount
 //@   requires specFetcher(f) && req != nil
-//@   ghost callsite-requires [C06] UpdateMetadata keyid(arg_key) == keyid(key)
-//@   ghost callsite-requires [C06] Get keyid(arg_key) == keyid(key)
+//@   ghost callsite-requires [C06,C02] UpdateMetadata keyid(arg_key) == keyid(key)
+//@   ghost callsite-requires [C06,C02] Get keyid(arg_key) == keyid(key)
 //@   ensures [C09] err == nil ==> specEntryShape(cached)
 //@   ensures [C09] err != nil ==> cached == nil && iserr(err, ErrUpdateCacheMetadata) && !iserr(err, ErrSendRequestFailed) && !iserr(err, ErrCacheResponseFailed)
 //@   ensures specFetchErr(err)
@@ -62,12 +62,12 @@ package proxy
 
 // A cacheable 200 is stored under the request's key with the validators and headers of
 // this response; the entry handed back is the stored one.  Anything else is not stored.
-//@ props C04 C06 C09 C16 C15
+//@ props C04 C06 C09 C16 C15 C02
 //@ func fetcher.handleUpstream200
 //@   nopanic
 //@   assigns cache. map_map_cache.CacheKey atomic.Int64 ghost:mapsum ghost:fsinode ghost:jsize ghost:jexp ghost:handleinode ghost:isize ghost:icontent
 //@   requires specFetcher(f) && req != nil && resp != nil && resp.Request != nil && resp.Header != nil && resp.Body != nil && upstreamHd != nil
-//@   ghost callsite-requires [C06] Cache keyid(arg_key) == keyid(key)
+//@   ghost callsite-requires [C06,C02] Cache keyid(arg_key) == keyid(key)
 //@   ghost callsite-requires [C06] Cache arg_metadata.Header == resp.Header
 //@   ghost callsite-requires [C06] Cache in(resp.Header, "Etag") && len(resp.Header["Etag"]) > 0 ==> sid(arg_metadata.ETag) == sid(resp.Header["Etag"][0])
 //@   ghost callsite-requires [C06] Cache !in(resp.Header, "Etag") ==> len(arg_metadata.ETag) == 0
@@ -79,8 +79,9 @@ package proxy
 //@   ensures specFetchErr(err)
 
 // 416 from the origin: once retried without the Range header (unless noRetry).
-//@ props C09 C16
+//@ props C09 C16 C02
 //@ func fetcher.handleUpstream416
+//@   ghost callsite-requires [C02] handleUpstreamResponse keyid(arg_key) == keyid(key)
 //@   nopanic
 //@   assigns HeaderDirectives new:http.Request url.URL http.Response@resp new:http.Response map_ ghost:upstream cache. map_map_cache.CacheKey atomic.Int64 ghost:mapsum ghost:fsinode ghost:jsize ghost:jexp ghost:handleinode ghost:isize ghost:icontent ghost:callcount
 //@   requires specFetcher(f) && req != nil && req.URL != nil && req.Header != nil && resp != nil && resp.Body != nil && clientHd != nil
@@ -97,8 +98,11 @@ package proxy
 
 // 200 is stored when cacheable, 304 renews the stored entry, 416 is retried once;
 // every other answer is neither stored nor does it touch the cache.
-//@ props C06 C09 C16
+//@ props C06 C09 C16 C02
 //@ func fetcher.handleUpstreamResponse
+//@   ghost callsite-requires [C02] handleUpstream200 keyid(arg_key) == keyid(key)
+//@   ghost callsite-requires [C02] handleUpstream304 keyid(arg_key) == keyid(key)
+//@   ghost callsite-requires [C02] handleUpstream416 keyid(arg_key) == keyid(key)
 //@   nopanic
 //@   assigns HeaderDirectives new:http.Request url.URL http.Response@resp new:http.Response map_ ghost:upstream cache. map_map_cache.CacheKey atomic.Int64 ghost:mapsum ghost:fsinode ghost:jsize ghost:jexp ghost:handleinode ghost:isize ghost:icontent ghost:callcount
 //@   requires specFetcher(f) && req != nil && req.URL != nil && req.Header != nil && resp != nil && resp.Request != nil && specHdrOK(resp.Header) && resp.Body != nil && clientHd != nil
@@ -131,8 +135,9 @@ package proxy
 // could not be reached; trouble on the cache side (store refused or failed, entry gone
 // before a 304 could renew it) is reported as ErrNotCacheable so that the caller answers
 // the client with a fetch of its own.
-//@ props C05 C06 C09 C16
+//@ props C05 C06 C09 C16 C02
 //@ func fetcher.fetchUpstream
+//@   ghost callsite-requires [C02] handleUpstreamResponse keyid(arg_key) == keyid(key)
 //@   nopanic
 //@   assigns HeaderDirectives http.Request@req new:http.Request url.URL new:http.Response map_ ghost:upstream cache. map_map_cache.CacheKey atomic.Int64 ghost:mapsum ghost:fsinode ghost:jsize ghost:jexp ghost:handleinode ghost:isize ghost:icontent ghost:callcount
 //@   requires specFetcher(f) && req != nil && req.URL != nil && req.Header != nil && clientHd != nil
@@ -162,8 +167,9 @@ package proxy
 //@   ensures specFetchErr(result1)
 //@   ensures [C05] upcancels >= old(upcancels) && (!ctxcancellable(old(req.ctx)) ==> upcancels == old(upcancels))
 
-//@ props C05 C09 C16
+//@ props C05 C09 C16 C02
 //@ func fetcher.handleCacheMiss
+//@   ghost callsite-requires [C02] fetchUpstream keyid(arg_key) == keyid(key)
 //@   nopanic
 //@   assigns HeaderDirectives http.Request@req new:http.Request url.URL new:http.Response map_ ghost:upstream cache. map_map_cache.CacheKey atomic.Int64 ghost:mapsum ghost:fsinode ghost:jsize ghost:jexp ghost:handleinode ghost:isize ghost:icontent ghost:callcount
 //@   requires specFetcher(f) && req != nil && req.URL != nil && req.Header != nil && clientHd != nil
@@ -185,8 +191,11 @@ package proxy
 // with that entry - exactly them, nothing the client sent - and it is a copy with a header
 // map of its own: the client's request (used again for a direct fetch) never gets them.  A fresh entry is served
 // without any origin request.
-//@ props C05 C06 C09 C16 C15
+//@ props C05 C06 C09 C16 C15 C02
 //@ func fetcher.getFromCacheOrFetch
+//@   ghost callsite-requires [C02] Get keyid(arg_key) == keyid(key)
+//@   ghost callsite-requires [C02] handleCacheMiss keyid(arg_key) == keyid(key)
+//@   ghost callsite-requires [C02] fetchUpstream keyid(arg_key) == keyid(key)
 //@   nopanic
 //@   assigns HeaderDirectives http.Request@req new:http.Request url.URL new:http.Response map_ ghost:upstream cache. map_map_cache.CacheKey atomic.Int64 ghost:mapsum ghost:fsinode ghost:jsize ghost:jexp ghost:handleinode ghost:isize ghost:icontent ghost:callcount
 //@   requires specFetcher(f) && req != nil && req.URL != nil && req.Header != nil && clientHd != nil
@@ -215,8 +224,12 @@ package proxy
 // shared one it waited for; and the shared run is never failed by the cancellation of the
 // request context of the one client that happens to run it (upcancels: origin requests
 // that failed because their own context was cancelled).
-//@ props C05 C09 C16 C15
+//@ props C05 C09 C16 C15 C02
 //@ func fetcher.dedupFetch
+//@   ghost callsite-requires [C02] Do sid(arg_key) == sid(key.Hex)
+//@   ghost callsite-requires [C02] getFromCacheOrFetch keyid(arg_key) == keyid(key)
+//@   ghost callsite-requires [C02] Get keyid(arg_key) == keyid(key)
+//@   ghost callsite-requires [C02] fetchUpstream keyid(arg_key) == keyid(key)
 //@   nopanic
 //@   assigns HeaderDirectives http.Request@req new:http.Request url.URL new:http.Response map_ ghost:upstream ghost:sfleader ghost:sfshared ghost:sferrs cache. map_map_cache.CacheKey atomic.Int64 ghost:mapsum ghost:fsinode ghost:jsize ghost:jexp ghost:handleinode ghost:isize ghost:icontent ghost:callcount
 //@   requires specFetcher(f) && req != nil && req.URL != nil && req.Header != nil && clientHd != nil
@@ -234,8 +247,9 @@ package proxy
 //@   ensures sferrs >= old(sferrs)
 //@   ensures specReqOK(req) && req.ctx == old(req.ctx) && req.Body == old(req.Body)
 
-//@ props C07 C16 C15
+//@ props C07 C16 C15 C02
 //@ func Proxy.handleRangeRequest
+//@   ghost callsite-requires [C02] dedupFetch keyid(arg_key) == keyid(key)
 //@   nopanic
 //@   assigns HeaderDirectives http.Request@req new:http.Request url.URL new:http.Response map_ ghost:upstream ghost:sfleader ghost:sfshared ghost:sferrs cache. map_map_cache.CacheKey atomic.Int64 ghost:mapsum ghost:fsinode ghost:jsize ghost:jexp ghost:handleinode ghost:isize ghost:icontent responder. ghost:httpstatus ghost:httpwrites ghost:respbody ghost:httperrs ghost:callcount
 //@   requires specFetcher(p.fetch) && specReqOK(req)
@@ -333,8 +347,10 @@ package proxy
 // answers with an error of its own making, only when an origin request failed (its own
 // or the shared one it waited for), when the client's Range cannot be satisfied, or when
 // writing to the client failed.
-//@ props C09 C16 C15
+//@ props C09 C16 C15 C02
 //@ func Proxy.processRequest
+//@   ghost callsite-requires [C02] dedupFetch keyid(arg_key) == keyid(key)
+//@   ghost callsite-requires [C02] handleRangeRequest keyid(arg_key) == keyid(key)
 //@   nopanic
 //@   assigns HeaderDirectives http.Request@req new:http.Request url.URL new:http.Response map_ ghost:upstream ghost:sfleader ghost:sfshared ghost:sferrs cache. map_map_cache.CacheKey atomic.Int64 ghost:mapsum ghost:fsinode ghost:jsize ghost:jexp ghost:handleinode ghost:isize ghost:icontent responder. ghost:httpstatus ghost:httpwrites ghost:respbody ghost:httperrs ghost:callcount metrics.
 //@   requires p.cfg != nil && aset(p.cfg.Proxy.RetryOnInvalidRange.value) && specFetcher(p.fetch) && specReqOK(req) && clientHd != nil && specHdInv(clientHd)
@@ -352,8 +368,9 @@ package proxy
 
 // handleHTTP strips the client's conditional headers before anything is fetched, and
 // hands processRequest a responder that carries nothing from an earlier exchange.
-//@ props C06 C09 C10 C16
+//@ props C06 C09 C10 C16 C02
 //@ func Proxy.handleHTTP
+//@   ghost callsite-requires [C02] processRequest sid(arg_key.Hex) == specKeyHex(proxyReq.TLS != nil ? sid("https") : sid("http"), sid(proxyReq.Method), sid(proxyReq.Host), sid(proxyReq.URL.Path), sid(proxyReq.URL.RawQuery))
 //@   nopanic
 //@   assigns HeaderDirectives http.Request@proxyReq new:http.Request url.URL new:http.Response map_ ghost:upstream ghost:sfleader ghost:sfshared ghost:sferrs cache. map_map_cache.CacheKey atomic.Int64 ghost:mapsum ghost:fsinode ghost:jsize ghost:jexp ghost:handleinode ghost:isize ghost:icontent responder. ghost:httpstatus ghost:httpwrites ghost:respbody ghost:httperrs ghost:callcount metrics.
 //@   requires [C10] specRespEmpty(r)
